@@ -53,7 +53,8 @@ class Assembly:
         return dict(cells=[list(c) for c in self.cells], perms=self.perms,
                     chops=[[b, a, ch] for (b, a), ch in sorted(self.chops.items())],
                     jitter=[[list(k), list(v)] for k, v in sorted(self.jitter.items())], order=self.order,
-                    **({"arcs": self.arcs} if self.arcs else {}), **({"moves": self.moves} if self.moves else {}))
+                    **({"arcs": self.arcs} if self.arcs else {}), **({"moves": self.moves} if self.moves else {}),
+                    **({"life": self.life} if getattr(self, "life", None) is not None else {}))
 
     @staticmethod
     def from_json(d):
@@ -62,6 +63,8 @@ class Assembly:
                        {tuple(k): tuple(v) for k, v in d["jitter"]}, d.get("order"))
         asm.arcs = [list(a) for a in d.get("arcs", [])]
         asm.moves = [list(a) for a in d.get("moves", [])]
+        if d.get("life") is not None:
+            asm.life = int(d["life"])
         return asm
 
     def points(self, ci):
@@ -358,12 +361,14 @@ def parse_blocks(text):
 def life_variant(asm):
     """how the mesh object has lived before the write that is observed (chosen by the assembly itself, so that replays
     agree): 0 fresh; 1 already written once (same outcome expected again, also after an error); 2 assembled, cleared and
-    assembled again; 3 graded explicitly before writing.  The grading a write produces is a function of the model, not of
+    assembled again; 3 graded explicitly before writing; 4 written (or refused) once, then cleared and assembled again.  The grading a write produces is a function of the model, not of
     what the mesh object went through."""
     import hashlib
     import json
+    if getattr(asm, "life", None) is not None:
+        return int(asm.life)
     h = int(hashlib.sha1(json.dumps(asm.to_json(), sort_keys=True, default=str).encode()).hexdigest()[:6], 16)
-    return (h % 8) if (h % 8) < 4 else 0
+    return (h % 10) if (h % 10) < 5 else 0
 
 
 def _write_outcome(mesh, path, ex, livelock):
@@ -396,6 +401,13 @@ def run_impl(asm, workdir, prio=None, budget_factor=6):
         warnings.simplefilter("ignore")
         mesh.assemble()
         if life == 2 and not prio:
+            mesh.clear()
+            mesh.assemble()
+        if life == 4 and not prio:
+            try:
+                mesh.write(os.path.join(workdir, "bmd_first_%d" % os.getpid()))
+            except Exception:  # noqa: BLE001  (a refused first write is part of the life)
+                pass
             mesh.clear()
             mesh.assemble()
     if prio:
